@@ -381,7 +381,9 @@ class Check(FormulaCheck):
             calls = []
             depth = [0]
             reenter = rnd.random() < 0.3          # a listener that evaluates another formula on the same parser while its event is delivered
-            nested_f = rnd.choice(['Q7+1', 'foo&"x"', 'FA(2)', 'Q7:R9', '1+', 'SUM(Q7,foo)'])
+            # (also nested formulas that are cut short with part of their text unread: an unknown function, a syntax error half-way)
+            nested_f = rnd.choice(['Q7+1', 'foo&"x"', 'FA(2)', 'Q7:R9', '1+', 'SUM(Q7,foo)', 'SUM(Q7,NOSUCH(1))+R8', 'Q7+NOSUCH(1)+R8', 'Q7 R8+S9', '1 2+Q7', ')+Q7*2', 'nosuchname+Q7&foo',
+                                   '"open+Q7', 'Q7+#REF!+R8'])
             # what a listener *returns* is nobody's business: one-line lambdas return their setter call's result, others return anything
             returns = [rnd.choice(['none', 'none', 'first-setter-result', 'all-setter-results', 'junk']) for _ in script]
             junk = [rnd.choice(['ignored', 99, (1, 2), 0, False, [5]]) for _ in script]
@@ -451,6 +453,9 @@ class Check(FormulaCheck):
                     for spelling in {lab, lab.upper(), lab.replace('$', ''), lab.replace('$', '').upper()}:
                         p.set_variable(spelling, 'decoy-variable')
                 rec.count('variables_spelled_like_the_reference')
+            # the reference in the plainest surroundings that leave its value alone: nothing, parentheses, an identity function
+            p.set_function('IDF', lambda x, *rest: x)
+            f = rnd.choice(['%s', '%s', '(%s)', '((%s))'] + ([] if kind == 'fn' else ['IDF(%s)', 'IDF(%s,1)', 'IDF((%s))'])) % f      # (IDF is a call itself)
             r = self.parse(f)
             flat = [v for vals in script for v in vals if v is not None]
             exp = flat[-1] if flat else base
